@@ -47,9 +47,17 @@ Definition resolve (d : gmap positive dent) (e : positive) : option positive := 
 (* one past the largest key in use *)
 Definition fresh_key {A} (m : gmap positive A) : positive := Pos.succ (pmax_list (map fst (map_to_list m))).
 
+(* permission bits a file gets when it is created with perm `p` under the process umask: p AND NOT umask *)
+Definition create_mode (umask p : N) : N := N.ldiff p umask.
+
 Section Prims.
 Variable fresh_ent : gmap positive dent -> positive.
 Variable fresh_ino : gmap positive file -> positive.
+(* the process umask *)
+Variable umask : N.
+(* O_CREATE with perm 0666 (open_excl, openStagedFile) and os.CreateTemp's 0600 *)
+Definition perm_new : N := create_mode umask 438.
+Definition perm_tmp : N := create_mode umask 384.
 
 (* os.Open(p): the descriptor is bound to the inode *)
 Definition open_rd (p : sp) (s : ist) : rr positive :=
@@ -62,7 +70,7 @@ Definition open_excl (p : sp) (s : ist) : rr positive :=
   match idir s !! sp_ent p with
   | Some _ => RErr EEXIST s
   | None => let i := fresh_ino (inos s) in
-            ROk i (IS (<[sp_ent p := DFile i]> (idir s)) (<[i := File [] mode_new]> (inos s)) (wlog s) (reads s))
+            ROk i (IS (<[sp_ent p := DFile i]> (idir s)) (<[i := File [] perm_new]> (inos s)) (wlog s) (reads s))
   end.
 (* os.Stat(p): follows symlinks *)
 Definition stat (p : sp) (s : ist) : rr (positive * file) :=
@@ -122,7 +130,7 @@ Definition open_tmp (target : option sp) (s : ist) : rr (positive * positive * o
     match stat tg s with
     | RErr e s => RErr e s
     | ROk (_, fi) s =>
-      match create_temp mode_tmp s with
+      match create_temp perm_tmp s with
       | RErr e s => RErr e s
       | ROk (t, i) s =>
         match fchmod i (fmode fi) s with
@@ -182,9 +190,11 @@ Definition output_aliases_input (inF outF : sp) (s : ist) : bool :=
                           end
        end.
 
-(* pkg/pdfcpu/io.go createStagedFile(path): O_EXCL on a random name, 0666; if stat(path) succeeds Chmod *)
+(* pkg/pdfcpu/io.go createStagedFile(path): openStagedFile = O_RDWR|O_CREATE|O_EXCL on a random name with
+   perm 0666 (the file gets 0666 &^ umask); then `if fi, err := os.Stat(path); err == nil { f.Chmod(fi.Mode().Perm()) }`:
+   the explicit chmod is not subject to the umask *)
 Definition create_staged_file (path : sp) (s : ist) : rr (positive * positive) :=
-  match create_temp mode_new s with
+  match create_temp perm_new s with
   | RErr e s => RErr e s
   | ROk (t, i) s =>
     match stat path s with
@@ -235,7 +245,7 @@ Definition mk_state (d : list (positive * dent)) (i : list (positive * file)) : 
   IS (list_to_map d) (list_to_map i) [] [].
 Definition dir_to_list (s : ist) : list (positive * dent) := map_to_list (idir s).
 Definition inos_to_list (s : ist) : list (positive * file) := map_to_list (inos s).
-Definition run_api_i := api_i fresh_ent_hi fresh_ino_hi.
-Definition run_copy_i := copy_file_i fresh_ent_hi fresh_ino_hi.
-Definition run_write_reader_i := write_reader_i fresh_ent_hi fresh_ino_hi.
+Definition run_api_i (umask : N) := api_i fresh_ent_hi fresh_ino_hi umask.
+Definition run_copy_i (umask : N) := copy_file_i fresh_ent_hi fresh_ino_hi umask.
+Definition run_write_reader_i (umask : N) := write_reader_i fresh_ent_hi fresh_ino_hi umask.
 Definition run_aliases := output_aliases_input.
